@@ -9,6 +9,7 @@
 #include <atomic>
 #include <cmath>
 #include <cstdlib>
+#include <cstring>
 #include <fstream>
 #include <functional>
 #include <iostream>
@@ -485,16 +486,39 @@ template <typename T> static void c12_family(rng& g, bool thorough)
 }
 
 // ---- C20 ---------------------------------------------------------------------------------------
+// a number as the stream of the report prints it (same flags, precision and locale as std::cout), interned
+template <typename T> static long long report_token(T x)
+{
+    std::ostringstream os;
+    os.copyfmt(std::cout);
+    os << x;
+    return ids().id("r:" + os.str());
+}
+struct report_facts { std::vector<long long> n, nz, nnf, e, err, all_e, all_err, chi; };
 template <typename C> struct recording_cb
 {
     hep::callback<C> inner;
     std::vector<long long>* texts;
     std::vector<long long>* rets;
     std::vector<long long>* facts; // per iteration: calls, non-finite evaluations
+    report_facts* rep;             // per iteration: what Report.tla says the verbose modes report (through the public accessors)
     bool operator()(C const& c)
     {
         facts->push_back((long long) c.results().back().calls());
         facts->push_back((long long) (c.results().back().non_zero_calls() - c.results().back().finite_calls()));
+        if (rep)
+        {
+            auto const& rs = c.results();
+            rep->n.push_back((long long) rs.back().calls());
+            rep->nz.push_back((long long) rs.back().non_zero_calls());
+            rep->nnf.push_back((long long) (rs.back().non_zero_calls() - rs.back().finite_calls()));
+            rep->e.push_back(report_token(rs.back().value()));
+            rep->err.push_back(report_token(rs.back().error()));
+            auto const all = hep::accumulate<hep::weighted_with_variance>(rs.begin(), rs.end());
+            rep->all_e.push_back(report_token(all.value()));
+            rep->all_err.push_back(report_token(all.error()));
+            rep->chi.push_back(report_token(hep::chi_square_dof<hep::weighted_with_variance>(rs.begin(), rs.end())));
+        }
         texts->push_back(ids().id("t:" + text_of(c)));
         bool r = inner(c);
         rets->push_back(r ? 1 : 0);
@@ -528,6 +552,7 @@ static void c20_run(rng& g, int shp, int variant, int world, double target, bool
         if (badfile) file = scratch + "/no_such_directory/c20.chk";
         std::remove(file.c_str());
         std::vector<long long> texts, rets, facts;
+        report_facts rep;
         std::string status = "ok";
         long long final_text = 0;
         capture.reset();
@@ -536,7 +561,7 @@ static void c20_run(rng& g, int shp, int variant, int world, double target, bool
         {
             if (world == 0)
             {
-                C r = K::run(shp, variant, K::fresh(variant), plan, recording_cb<C>{hep::callback<C>((hep::callback_mode) mode, file, T(target)), &texts, &rets, &facts});
+                C r = K::run(shp, variant, K::fresh(variant), plan, recording_cb<C>{hep::callback<C>((hep::callback_mode) mode, file, T(target)), &texts, &rets, &facts, &rep});
                 final_text = ids().id("t:" + text_of(r));
             }
             else
@@ -581,10 +606,18 @@ static void c20_run(rng& g, int shp, int variant, int world, double target, bool
             if (in) { std::stringstream ss; ss << in.rdbuf(); file_text = ids().id("t:" + ss.str()); }
         }
         // what the verbose modes printed about each iteration: "iteration K finished." and "this iteration: N=<calls> ... nnf=<non-finite>"
-        std::vector<long long> printed_iters, printed_n, printed_nnf;
+        std::vector<long long> printed_iters, printed_n, printed_nnf, p_eff, p_e, p_err, p_all_n, p_all_e, p_all_err, p_chi;
         {
             std::istringstream in(capture.text0);
             std::string line;
+            // the token between `key` and the first of `stop`
+            auto token = [](std::string const& l, char const* key, char const* stop) -> std::string {
+                std::size_t a = l.find(key);
+                if (a == std::string::npos) return "<missing>";
+                a += std::strlen(key);
+                std::size_t b = l.find_first_of(stop, a);
+                return l.substr(a, b == std::string::npos ? std::string::npos : b - a);
+            };
             while (std::getline(in, line))
             {
                 if (line.compare(0, 10, "iteration ") == 0 && line.find("finished") != std::string::npos) printed_iters.push_back(std::atoll(line.c_str() + 10));
@@ -593,10 +626,27 @@ static void c20_run(rng& g, int shp, int variant, int world, double target, bool
                     std::size_t a = line.find("N="), b = line.find("nnf=");
                     printed_n.push_back(a == std::string::npos ? -1 : std::atoll(line.c_str() + a + 2));
                     printed_nnf.push_back(b == std::string::npos ? -1 : std::atoll(line.c_str() + b + 4));
+                    p_e.push_back(ids().id("r:" + token(line, " E=", " ")));
+                    p_err.push_back(ids().id("r:" + token(line, " +- ", " ")));
+                    std::string const eff = token(line, " eff=", "%");
+                    char* end = nullptr;
+                    double const x = std::strtod(eff.c_str(), &end);
+                    p_eff.push_back((end == eff.c_str() || *end != 0 || !(x >= 0.0 && x <= 1000.0)) ? -1 : (long long) std::llround(x * 1000.0));
+                }
+                else if (line.compare(0, 15, "all iterations:") == 0)
+                {
+                    std::size_t a = line.find("N=");
+                    p_all_n.push_back(a == std::string::npos ? -1 : std::atoll(line.c_str() + a + 2));
+                    p_all_e.push_back(ids().id("r:" + token(line, " E=", " ")));
+                    p_all_err.push_back(ids().id("r:" + token(line, " +- ", " ")));
+                    p_chi.push_back(ids().id("r:" + token(line, "chi^2/dof=", " ")));
                 }
             }
         }
-        ev("Lane").i("run", id).i("mode", mode).a("facts", facts).a("pIters", printed_iters).a("pN", printed_n).a("pNnf", printed_nnf).s("kind", K::name()).s("T", type_name<T>::get()).s("shape", shape_name(shp)).i("variant", variant)
+        ev("Lane").i("run", id).i("mode", mode).a("facts", facts).a("pIters", printed_iters).a("pN", printed_n).a("pNnf", printed_nnf)
+            .a("pEff", p_eff).a("pE", p_e).a("pErr", p_err).a("pAllN", p_all_n).a("pAllE", p_all_e).a("pAllErr", p_all_err).a("pChi", p_chi)
+            .a("cN", rep.n).a("cNz", rep.nz).a("cNnf", rep.nnf).a("cE", rep.e).a("cErr", rep.err).a("cAllE", rep.all_e).a("cAllErr", rep.all_err).a("cChi", rep.chi)
+            .s("kind", K::name()).s("T", type_name<T>::get()).s("shape", shape_name(shp)).i("variant", variant)
             .i("world", world).i("targetPos", target > 0 ? 1 : 0).a("texts", texts).a("rets", rets).i("final", final_text).s("status", status)
             .i("printed0", printed0).i("printedOther", printed_other).i("filesOther", files_other).i("fileText", file_text).i("badfile", badfile ? 1 : 0).emit();
     }
@@ -609,6 +659,11 @@ template <typename T> static void c20_family(rng& g, bool thorough)
         c20_run<plain_k<T>, T>(g, shp, 0, 0, shp == s_ordinary ? 0.05 : 0.0);
         c20_run<vegas_k<T>, T>(g, shp, 0, shp % 2 ? 2 : 0, shp == s_negative ? 0.05 : 0.0);
     }
+    // fractional efficiencies and non-finite counts in the report (Report.tla): half the first iteration infinite and the rest of it zero,
+    // a first iteration of zeros only, an iteration of zeros between ordinary ones
+    c20_run<plain_k<T>, T>(g, s_inf0, 0, 0, 0.0);
+    c20_run<vegas_k<T>, T>(g, s_gap0, 0, 0, 0.0);
+    c20_run<plain_k<T>, T>(g, s_gap, 0, 0, 0.0);
     c20_run<plain_k<T>, T>(g, s_ordinary, 0, 0, 0.0, true);
     c20_run<vegas_k<T>, T>(g, s_ordinary, 0, 2, 0.0, true);
     c20_run<mc_k<T>, T>(g, s_ordinary, 2, 0, 0.0, true);
